@@ -390,4 +390,260 @@ theorem run_valInv (st : State) (evs : List Event) (hid : IdsNodup st) (base : N
     evs st [] hid (fun _ _ => trivial) (fun y hy => ⟨h0 y hy, fun a ha => by cases ha⟩)
   simpa using this
 
+
+/-! ### (2) cadence: at least every (COAP_OBS_MAX_NON+1)-th notification to an entry is Confirmable -/
+def isConOut (o : Out) : Bool := o.kind == .con
+
+/-- length of the run of Non-confirmables at the end of `l`, when `n` of them preceded `l` -/
+def runLen : Nat → List Bool → Nat
+  | n, [] => n
+  | _, true :: l => runLen 0 l
+  | n, false :: l => runLen (n + 1) l
+
+/-- no run of Non-confirmables ever exceeds COAP_OBS_MAX_NON -/
+def windowOk : Nat → List Bool → Bool
+  | _, [] => true
+  | _, true :: l => windowOk 0 l
+  | n, false :: l => Nat.ble (n + 1) obsMaxNon && windowOk (n + 1) l
+
+theorem runLen_snoc (b : Bool) : ∀ (l : List Bool) (n : Nat), runLen n (l ++ [b]) = if b then 0 else runLen n l + 1
+  | [], n => by cases b <;> rfl
+  | true :: l, n => by simp only [List.cons_append, runLen]; exact runLen_snoc b l 0
+  | false :: l, n => by simp only [List.cons_append, runLen]; exact runLen_snoc b l (n + 1)
+
+theorem windowOk_snoc (b : Bool) : ∀ (l : List Bool) (n : Nat),
+    windowOk n (l ++ [b]) = (windowOk n l && (b || Nat.ble (runLen n l + 1) obsMaxNon))
+  | [], n => by cases b <;> simp [windowOk, runLen]
+  | true :: l, n => by simp only [List.cons_append, windowOk, runLen]; exact windowOk_snoc b l 0
+  | false :: l, n => by
+    simp only [List.cons_append, windowOk, runLen]
+    rw [windowOk_snoc b l (n + 1), Bool.and_assoc]
+
+theorem windowOk_allFalse : ∀ (w post : List Bool) (n : Nat), windowOk n (w ++ post) = true → (∀ x ∈ w, x = false) →
+    n + w.length ≤ obsMaxNon ∨ w = []
+  | [], _, _, _, _ => Or.inr rfl
+  | true :: w, _, _, _, hf => by have := hf true (List.mem_cons_self ..); cases this
+  | false :: w, post, n, h, hf => by
+    simp only [List.cons_append, windowOk, Bool.and_eq_true, Nat.ble_eq] at h
+    left
+    rcases windowOk_allFalse w post (n + 1) h.2 (fun x hx => hf x (List.mem_cons_of_mem _ hx)) with h1 | h1
+    · simp only [List.length_cons]; omega
+    · subst h1; simp only [List.length_cons, List.length_nil]; omega
+
+/-- what `windowOk` means: every window of COAP_OBS_MAX_NON + 1 consecutive notifications contains a Confirmable one -/
+theorem windowOk_window : ∀ (pre w post : List Bool) (n : Nat), windowOk n (pre ++ w ++ post) = true →
+    w.length = obsMaxNon + 1 → true ∈ w
+  | [], w, post, n, h, hl => by
+    cases hc : w.contains true with
+    | true => simpa using hc
+    | false =>
+      exfalso
+      have hf : ∀ x ∈ w, x = false := by
+        intro x hx
+        cases x with
+        | false => rfl
+        | true =>
+          have : w.contains true = true := List.contains_iff_mem.mpr hx
+          rw [hc] at this; cases this
+      rcases windowOk_allFalse w post n (by simpa using h) hf with h1 | h1
+      · omega
+      · subst h1; simp at hl
+  | true :: pre, w, post, n, h, hl => by
+    simp only [List.cons_append, windowOk] at h
+    exact windowOk_window pre w post 0 h hl
+  | false :: pre, w, post, n, h, hl => by
+    simp only [List.cons_append, windowOk, Bool.and_eq_true] at h
+    exact windowOk_window pre w post (n + 1) h.2 hl
+
+theorem wantCon_false_iff (r : Res) (o : Sub) :
+    wantCon r o = false ↔ (r.fCon = false ∧ (r.fNonAlways = true ∨ o.nonCnt < obsMaxNon)) := by
+  unfold wantCon
+  cases r.fCon <;> cases r.fNonAlways <;> simp
+
+/-- the message types (true = CON) of the notifications to (c, tok) among `acc` -/
+def kindsTo (c tok : Nat) (acc : List Out) : List Bool := (notifsTo c tok acc).map isConOut
+
+structure CadInv (c tok : Nat) (y : Res) (acc : List Out) : Prop where
+  nodup : NoDup y
+  flag : y.fNonAlways = false
+  window : windowOk 0 (kindsTo c tok acc) = true
+  cnt : ∀ o ∈ y.subs, matchST c tok o = true → runLen 0 (kindsTo c tok acc) ≤ o.nonCnt ∧ o.nonCnt ≤ obsMaxNon
+
+theorem CadInv.same_acc {c tok : Nat} {y y' : Res} {acc acc' : List Out} (h : CadInv c tok y acc)
+    (he : notifsTo c tok acc' = notifsTo c tok acc) (hn : NoDup y') (hf : y'.fNonAlways = y.fNonAlways)
+    (hs : ∀ o' ∈ y'.subs, matchST c tok o' = true → ∃ o ∈ y.subs, matchST c tok o = true ∧ o.nonCnt = o'.nonCnt) :
+    CadInv c tok y' acc' := by
+  have hk : kindsTo c tok acc' = kindsTo c tok acc := by unfold kindsTo; rw [he]
+  refine ⟨hn, hf.trans h.flag, hk ▸ h.window, ?_⟩
+  intro o' ho' hm
+  obtain ⟨o, ho, hmo, hc⟩ := hs o' ho' hm
+  rw [hk, ← hc]
+  exact h.cnt o ho hmo
+
+theorem CadInv.micro {A : Nat → Nat → Nat → Prop} (c tok : Nat) (y : Res) (o : List Out) (y' : Res) (acc : List Out)
+    (hA : ¬ A y.id c tok) (h : CadInv c tok y acc) (hm : Micro A y o y') : CadInv c tok y' (acc ++ o) := by
+  cases hm with
+  | le hle =>
+    refine h.same_acc (by rw [List.append_nil]) (NoDup.of_idLe hle.le.idLe h.nodup) hle.fNonAlways ?_
+    intro o' ho' hmo
+    obtain ⟨o1, ho1, hc⟩ := hle.mem_sub ho'
+    exact ⟨o1, ho1, by rw [matchST_coreF hc]; exact hmo, (coreF_fields hc).2.2.2.2.1⟩
+  | errFlag b =>
+    exact h.same_acc (by rw [List.append_nil]) h.nodup rfl (fun o' ho' hmo => ⟨o', ho', hmo, rfl⟩)
+  | change =>
+    exact h.same_acc (by rw [List.append_nil]) h.nodup rfl (fun o' ho' hmo => ⟨o', ho', hmo, rfl⟩)
+  | register c' tok' key m out hA' hal herr htag =>
+    have hf := addToRes_fields y c' tok' key m
+    refine h.same_acc (by rw [notifsTo_append, notifsTo_resp c tok out htag, List.append_nil])
+      (addToRes_noDup y c' tok' key m h.nodup) hf.2.2.2.1 ?_
+    intro o' ho' hmo
+    rcases mem_addToRes ho' with rfl | ho1
+    · exfalso
+      simp [matchST] at hmo
+      exact hA (hmo.1 ▸ hmo.2 ▸ hA')
+    · exact ⟨o', ho1, hmo, rfl⟩
+  | resp out htag _ =>
+    exact h.same_acc (by rw [notifsTo_append, notifsTo_resp c tok out htag, List.append_nil]) h.nodup rfl
+      (fun o' ho' hmo => ⟨o', ho', hmo, rfl⟩)
+  | notify d hal hv =>
+    rename_i subs' pd
+    have hn' : NoDup { y with subs := subs', pdirty := pd, dirty := false } := List.Pairwise.sublist hv.idLe h.nodup
+    rcases hv.target c tok h.nodup with ⟨_, h2, h3⟩ | ⟨o1, ho1, hm1, s, pd1, po, hvis, h4, h5, h6⟩
+    · refine h.same_acc (by rw [notifsTo_of_filter c tok acc o [] h3]; simp) hn' rfl ?_
+      intro o' ho' hmo
+      rw [h2 o' ho'] at hmo; cases hmo
+    · cases hvis with
+      | skip hyd hod =>
+        refine h.same_acc (by rw [notifsTo_of_filter c tok acc o [] h6]; simp) hn' rfl ?_
+        intro o' ho' hmo
+        have := h4 o' ho' hmo
+        simp at this; subst this
+        exact ⟨o1, ho1, hm1, rfl⟩
+      | defer hst =>
+        refine h.same_acc (by rw [notifsTo_of_filter c tok acc o [] h6]; simp) hn' rfl ?_
+        intro o' ho' hmo
+        have := h4 o' ho' hmo
+        simp at this; subst this
+        exact ⟨o1, ho1, hm1, rfl⟩
+      | bye m n hst hd =>
+        refine h.same_acc (by rw [notifsTo_of_filter c tok acc o _ h6]; simp [isNotif, noteOut]) hn' rfl ?_
+        intro o' ho' hmo
+        have := h4 o' ho' hmo
+        simp at this; subst this
+        exact ⟨o1, ho1, hm1, rfl⟩
+      | error m n hst hd he =>
+        refine h.same_acc (by rw [notifsTo_of_filter c tok acc o _ h6]; simp [isNotif, noteOut]) hn' rfl ?_
+        intro o' ho' hmo
+        have := h4 o' ho' hmo
+        cases this
+      | sent m n hst hd he =>
+        have heq : kindsTo c tok (acc ++ o) = kindsTo c tok acc ++ [wantCon y o1] := by
+          unfold kindsTo
+          rw [notifsTo_of_filter c tok acc o _ h6]
+          simp [isNotif, noteOut, isConOut]
+          cases wantCon y o1 <;> simp
+        obtain ⟨hc1, hc2⟩ := h.cnt o1 ho1 hm1
+        have hmax : obsMaxNon ≤ 255 := by decide
+        refine ⟨hn', h.flag, ?_, ?_⟩
+        · rw [heq, windowOk_snoc, h.window]
+          cases hw : wantCon y o1 with
+          | true => rfl
+          | false =>
+            have := (wantCon_false_iff y o1).mp hw
+            simp [h.flag] at this
+            simp
+            omega
+        · intro o' ho' hmo
+          have := h4 o' ho' hmo
+          simp at this; subst this
+          rw [heq, runLen_snoc]
+          dsimp only
+          unfold nextNonCnt
+          cases hw : wantCon y o1 with
+          | true => simp
+          | false =>
+            have := (wantCon_false_iff y o1).mp hw
+            simp [h.flag] at this
+            simp [h.flag]
+            omega
+  | clean hc =>
+    exact h.same_acc (by rw [List.append_nil]) h.nodup rfl (fun o' ho' hmo => ⟨o', ho', hmo, rfl⟩)
+  | delete pd =>
+    refine h.same_acc (by rw [List.append_nil]) ?_ rfl (fun o' ho' => by cases ho')
+    unfold NoDup; exact List.Pairwise.nil
+theorem Visits.mem_sub {d : Bool} {r : Res} {subs subs' : List Sub} {pd : Bool} {outs : List Out}
+    (h : Visits d r subs subs' pd outs) : ∀ o' ∈ subs', ∃ o ∈ subs, ∃ pd1 po, Visit d r o (some o') pd1 po := by
+  induction h with
+  | nil => intro o' ho'; cases ho'
+  | @cons o s pd outs rest subs' pd' outs' hv _ ih =>
+    intro o' ho'
+    rcases List.mem_append.mp ho' with ho' | ho'
+    · cases s with
+      | none => simp at ho'
+      | some o'' =>
+        simp at ho'; subst ho'
+        exact ⟨o, List.mem_cons_self .., pd, outs, hv⟩
+    · obtain ⟨o1, ho1, hh⟩ := ih o' ho'
+      exact ⟨o1, List.mem_cons_of_mem _ ho1, hh⟩
+
+theorem nextNonCnt_le (r : Res) (o : Sub) (h : o.nonCnt ≤ obsMaxNon) : nextNonCnt r o ≤ obsMaxNon := by
+  unfold nextNonCnt
+  split
+  · exact Nat.zero_le _
+  · rename_i hc
+    simp at hc
+    have := (wantCon_false_iff r o).mp hc.1
+    simp [hc.2] at this
+    have hmax : obsMaxNon ≤ 255 := by decide
+    omega
+
+/-- the NON counter of an entry never exceeds COAP_OBS_MAX_NON -/
+def NonCntOk (y : Res) : Prop := ∀ o ∈ y.subs, o.nonCnt ≤ obsMaxNon
+
+theorem NonCntOk.micro {A : Nat → Nat → Nat → Prop} (y : Res) (o : List Out) (y' : Res) (h : NonCntOk y) (hm : Micro A y o y') :
+    NonCntOk y' := by
+  cases hm with
+  | le hle =>
+    intro o' ho'
+    obtain ⟨o1, ho1, hc⟩ := hle.mem_sub ho'
+    rw [← (coreF_fields hc).2.2.2.2.1]; exact h o1 ho1
+  | errFlag b => exact h
+  | change => exact h
+  | register c' tok' key m out hA' hal herr htag =>
+    intro o' ho'
+    rcases mem_addToRes ho' with rfl | ho1
+    · exact Nat.zero_le _
+    · exact h o' ho1
+  | resp out htag _ => exact h
+  | notify d hal hv =>
+    intro o' ho'
+    obtain ⟨o1, ho1, pd1, po, hvis⟩ := hv.mem_sub o' ho'
+    have := h o1 ho1
+    cases hvis with
+    | skip => exact this
+    | defer => exact this
+    | bye => exact this
+    | sent => exact nextNonCnt_le y o1 this
+  | clean hc => exact h
+  | delete pd => intro o' ho'; cases ho'
+
+theorem run_nonCntOk (st : State) (evs : List Event) (hid : IdsNodup st) (h : ∀ y ∈ st.res, NonCntOk y) :
+    ∀ y ∈ (run st evs).1.res, NonCntOk y := by
+  have := run_resInv (Q := fun y _ => NonCntOk y) (fun _ => True) (fun e _ y o y' _ hq hm => NonCntOk.micro y o y' hq hm)
+    evs st [] hid (fun _ _ => trivial) h
+  exact this
+
+theorem run_cadInv (st : State) (evs : List Event) (hid : IdsNodup st) (rid c tok : Nat)
+    (hok : ∀ e ∈ evs, ¬ RegEv e rid c tok)
+    (h0 : ∀ y ∈ st.res, y.id = rid → NoDup y ∧ y.fNonAlways = false ∧ NonCntOk y) :
+    ResInv (fun y acc => y.id = rid → CadInv c tok y acc) (run st evs).1 (run st evs).2 := by
+  have := run_resInv (Q := fun y acc => y.id = rid → CadInv c tok y acc) (fun e => ¬ RegEv e rid c tok)
+    (fun e he y o y' a hq hm hy' => by
+      have hyid : y.id = rid := hm.fixed.1 ▸ hy'
+      exact CadInv.micro c tok y o y' a (by rw [hyid]; exact he) (hq hyid) hm)
+    evs st [] hid hok (fun y hy hyid => by
+      obtain ⟨h1, h2, h3⟩ := h0 y hy hyid
+      exact ⟨h1, h2, rfl, fun o ho _ => ⟨Nat.zero_le _, h3 o ho⟩⟩)
+  simpa using this
+
 end Coap.Observe
